@@ -264,7 +264,7 @@ def c12_jobs(tier):
     return readname_jobs(tier) + decode_jobs(tier)
 
 
-HOOK_COMMITS = []
+HOOK_COMMITS = ["d1d19fe", "9d69ff3"]
 PENDING = {}
 
 PROPS = {
